@@ -130,3 +130,24 @@ Definition list_delitem {A} (l : list A) (i : Z) : res A :=
   | None => IndexErr
   | Some j => del_item l j
   end.
+
+(* ---------------------------------------------------------------- the harness vocabulary (impl c13: lg tg ls ld li lS lD) *)
+Inductive lop := LGet | TGet | LSet (k : nat) | LDel | IGet | ISet | IDel.
+Definition mklist (base : Z) (n : nat) : list Z := map (fun i => base + Z.of_nat i) (seq 0 n).
+Definition run_op (o : lop) (n : nat) (a b c : option Z) : res Z :=
+  let l := mklist 10 n in
+  match o, a with
+  | LGet, _ | TGet, _ => list_getslice l a b c
+  | LSet k, _ => list_setslice l (mklist 90 k) a b c
+  | LDel, _ => list_delslice l a b c
+  | IGet, Some i => list_getitem l i
+  | ISet, Some i => list_setitem l i 77
+  | IDel, Some i => list_delitem l i
+  | _, None => Panic
+  end.
+Definition res_eqb (x y : res Z) : bool :=
+  match x, y with
+  | Ok l1, Ok l2 => if list_eq_dec Z.eq_dec l1 l2 then true else false
+  | ValueErr, ValueErr | IndexErr, IndexErr | Panic, Panic => true
+  | _, _ => false
+  end.
